@@ -617,7 +617,7 @@ def main(argv):
     # on the real binary as a bounded stand-in, whatever the verifier said; so are the echo / tokens / lsp inputs, whose
     # expected renderings, positions and decoded tokens were computed from the property (by hand or by the generators
     # tools/gen_*_witnesses.py). Inputs that compare against a stored baseline (golden) stay replay material.
-    if tier == "thorough":
+    if True:   # both tiers (the inputs cost milliseconds each; until round 17 this ran in the thorough tier only)
         try:
             import witness as _w2
             binp2, _ = _w2.build_ironplcc()
@@ -632,6 +632,8 @@ def main(argv):
                     continue
                 if c.get("property") and pid not in c["property"]:
                     continue
+                if c["kind"] == "graphs" and pid == "C07":
+                    continue    # run by the stand-in graph_cycles above
                 if not any(re.search(r"(^|[|(])" + re.escape(u) + "/", c["for"]) or re.match(c["for"], u + "/x") for u in unit_names):
                     continue
                 rep, obs = _w2.run_candidate(c)
@@ -649,7 +651,7 @@ def main(argv):
                                "verifier_output": "", "witness": f["witness"], "note": "replay with ./check %s --replay %s" % (pid, rp)}, open(rp, "w"), indent=1)
                     if not any(x.get("witness") and x["witness"].get("candidate", {}).get("name") == c.get("name") for x in real_violations):
                         real_violations.append(f)
-            bounded_results.append({"name": "attached inputs with oracles taken from the property (thorough tier)", "bound": "%d inputs" % n_run, "evaluations": n_run,
+            bounded_results.append({"name": "attached inputs with oracles taken from the property", "bound": "%d inputs" % n_run, "evaluations": n_run,
                                     "failures": n_fail, "level": "bounded (not a proof; not counted among the obligations)"})
 
     for k in kani_results:
